@@ -586,18 +586,16 @@ Qed.
 (* ================= status of today's tables ================= *)
 
 Lemma lhs_entries_ok q o all :
-  In (q, o) alt_qualifiers -> (q, all) <> ("submit-fail"%string, false) ->
+  In (q, o) alt_qualifiers ->
   fam_entry_ok (fam_qual q all) = true.
 Proof.
-  intros Hq Hne.
+  intros Hq.
   assert (F : forallb (fun qo => forallb (fun a =>
-                (String.eqb (fst qo) "submit-fail" && negb a) || fam_entry_ok (fam_qual (fst qo) a))
+                fam_entry_ok (fam_qual (fst qo) a))
               [true; false]) alt_qualifiers = true) by (vm_compute; reflexivity).
   rewrite forallb_forall in F. specialize (F _ Hq). cbn [fst] in F.
   rewrite forallb_forall in F. specialize (F all (ltac:(destruct all; cbn; auto))).
-  apply orb_true_iff in F. destruct F as [F|F]; [|exact F].
-  apply andb_true_iff in F. destruct F as [F1 F2]. apply String.eqb_eq in F1.
-  destruct all; [discriminate|]. subst q. contradiction.
+  exact F.
 Qed.
 
 Lemma rhs_entries_ok q o all :
@@ -618,17 +616,3 @@ Lemma table_domains :
   /\ forallb (fun k => mem String.eqb k keys) (map fst fam_to_mem_output_map) = true
   /\ forallb (fun k => mem String.eqb k (map fst fam_to_mem_output_map)) keys = true.
 Proof. vm_compute. auto. Qed.
-
-(* the defect: FAM:submit-fail-any on the left is NOT the OR over member:submit-failed *)
-Lemma submit_fail_any_wrong :
-  exists fm e v toks atoms,
-    wf_lvl 0 e = true /\ forallb (node_accepted fm) (nodes_e e) = true
-    /\ expand_left fm (print_e e) = Ok (toks, atoms)
-    /\ eval_toks v toks <> Some (eval_e (doc_node fm v) e).
-Proof.
-  exists [(20, [1; 2])], (LN (mkNode 20 0 (Some "submit-fail-any"%string) true)),
-         (fun a => atom_eqb a (1, 0, "submitted"%string)).
-  eexists. eexists.
-  split; [vm_compute; reflexivity|]. split; [vm_compute; reflexivity|].
-  split; [vm_compute; reflexivity|]. vm_compute. discriminate.
-Qed.
